@@ -31,7 +31,7 @@ func parliaFamily(ad *adapter) *family {
 		},
 		grow: func(m *chainModel, p *node, root ecommon.Hash, weak bool) *types.Header {
 			if !weak {
-				h, _ := m.goodChild(p, 0, true, nil, root, 0, 0)
+				h, _ := m.goodChild(p, 0, turnPrefer, nil, root, 0, 0)
 				return h
 			}
 			allowed, _ := m.allowedSigners(p)
@@ -44,7 +44,7 @@ func parliaFamily(ad *adapter) *family {
 					break
 				}
 			}
-			h, _ := m.goodChild(p, pick, false, nil, root, 1, 0)
+			h, _ := m.goodChild(p, pick, turnAny, nil, root, 1, 0)
 			return h
 		},
 		after: func(m *chainModel, p, n *node) {
@@ -69,7 +69,7 @@ func cliqueFamily() *family {
 		},
 		grow: func(m *chainModel, p *node, root ecommon.Hash, weak bool) *types.Header {
 			if !weak {
-				h, _ := m.cliqueGood(p, 0, true, ecommon.Address{}, false, root, 0)
+				h, _ := m.cliqueGood(p, 0, turnPrefer, ecommon.Address{}, false, root, 0)
 				return h
 			}
 			allowed, _ := m.cliqueAllowed(p)
@@ -81,7 +81,7 @@ func cliqueFamily() *family {
 					break
 				}
 			}
-			h, _ := m.cliqueGood(p, pick, false, ecommon.Address{}, false, root, 1)
+			h, _ := m.cliqueGood(p, pick, turnAny, ecommon.Address{}, false, root, 1)
 			return h
 		},
 		after: func(m *chainModel, p, n *node) {
